@@ -17,7 +17,7 @@ emit('C05', '''C05 — Handshake agrees and recovers under loss, duplication, re
    correspondence: all delivery schedules to depth 5/7 plus random ones, on the real code and the
    model, with the open-what-the-other-seals / roles / payload / at-most-once oracle and the reliable
    phase at the end (py/props/c05.py).''',
- ['Base','Nonce','Replay','Core','CoreProofs','Conn','PeerCrypto','InitProofs','NegotiateProofs','Rotation2Proofs','LockstepProofs'],
+ ['Base','Nonce','Replay','Core','CoreProofs','Conn','PeerCrypto','InitProofs','NegotiateProofs','Rotation2Proofs','LockstepProofs','GiveUpProofs'],
  [('at_most_once','InitProofs.v','at_most_once','whatever sequence of verified messages an attempt is fed, it completes at most once'),
   ('closed_inert','InitProofs.v','closed_no_success','a completed attempt ignores everything (no second success, state unchanged)'),
   ('success_closes','InitProofs.v','success_closes','completion closes the attempt'),
@@ -28,8 +28,13 @@ emit('C05', '''C05 — Handshake agrees and recovers under loss, duplication, re
   ('same_secret','Rotation2Proofs.v','ecdh_sym','agreement ingredient 1: both ends derive the same ECDH secret from each other\'s public value'),
   ('same_cipher','NegotiateProofs.v','select_symmetric','agreement ingredient 2: both ends select the same cipher and speed'),
   ('opposite_halves','InitProofs.v','hash_gt_opposite','agreement ingredient 3: opposite nonce halves'),
+  ('waiting_responder_gives_up','GiveUpProofs.v','waiting_responder_gives_up','recovery ingredient: a handshake object that answered a ping and waits for the peng gives up (fatal Initialization timeout, upon which the node drops the entry and can dial again) once its retries plus the elapsed seconds exceed MAX_FAILED_RETRIES - whatever messages of other stages arrive in between, in any number and order: they change neither the object nor its give-up counter.  Two responder states (both ends dialled, gave up, and got the other end\'s last ping late) therefore cannot keep each other alive'),
  ],
  tail='''
+Example C05_ex_gives_up : i_stage ex_responder = STAGE_PENG /\\ i_retries ex_responder <= MAX_FAILED_RETRIES /\\
+  snd (run_evs (fun _ => true) ex_responder (flat_map (fun _ => [Some ex_pong; Some ex_pong; None]) (seq 0 121))) = true.
+Proof. exact ex_gives_up. Qed.
+
 (* the loss-free exchange (run3 = send ping; responder handles it; initiator handles the pong;
    responder handles the peng), all parameters universally quantified *)
 Theorem C05_lockstep_agreement :
